@@ -33,6 +33,9 @@ func init() {
 			c06Cancelled(d, c.Via, c.CancelAt, c.Honour, viol)
 		} else if c.Choices != nil {
 			xplore.RunOne(c.Choices, nil, 0, func(x *xplore.Ctx) string { return c06Transient(d, c.Via, x, viol) })
+		} else if c.Missing != "" && c.Kind == -1 {
+			mc, _ := cid.Decode(c.Missing)
+			c06Corrupt(d, c.Via, mc, viol)
 		} else if c.Missing != "" {
 			mc, _ := cid.Decode(c.Missing)
 			c06Withheld(d, c.Via, mc, store.ErrKind(c.Kind), viol)
@@ -252,6 +255,25 @@ func c06Cancelled(d *c12Dag, via string, k int, honour bool, viol func(sig, deta
 	}
 }
 
+// c06Corrupt: one entity block is served with bytes that do not hash to its
+// CID, through a link system that verifies what it loads (the default of
+// cidlink.DefaultLinkSystem): such a block cannot be loaded, so the access
+// fails -- it never succeeds on top of bytes nobody vouched for.
+func c06Corrupt(d *c12Dag, via string, blk cid.Cid, viol func(sig, detail string)) {
+	d.s.Corrupt = map[string]bool{string(blk.Hash()): true}
+	d.s.Verify = true
+	defer func() { d.s.Corrupt, d.s.Verify = nil, false }()
+	d.s.ResetLogs()
+	var err error
+	if p, pv := core.Guard(func() { err = c06Do(d, via) }); p {
+		viol("panic corrupt "+via, fmt.Sprintf("%s corrupt %s: %v", d.c, short(blk), pv))
+		return
+	}
+	if err == nil {
+		viol("partial-entity-no-error corrupt-block "+via+" "+d.c.Kind, fmt.Sprintf("%s: block %s is served with bytes that do not match its CID (verifying link system) but %s returned no error", d.c, short(blk), via))
+	}
+}
+
 func c06Transient(d *c12Dag, via string, x *xplore.Ctx, viol func(sig, detail string)) string {
 	failed := 0
 	loaded := map[string]bool{}
@@ -368,6 +390,23 @@ func runC06(r *core.Run) {
 						withheld.add(1)
 						c06Withheld(d, via, b, kind, func(sig, detail string) {
 							r.Violate(sig, detail, c06Replay{Case: c, Via: via, Missing: b.String(), Kind: int(kind)})
+						})
+					}
+				}
+				// every single block corrupt (verifying link system); blocks the
+				// access never needs (leading empty chunks: the known finding) aside
+				if !d.mayRefuse {
+					var empty map[string]bool
+					if d.tree != nil {
+						empty = d.tree.EmptySpan()
+					}
+					for _, b := range d.blocks {
+						if empty[b.KeyString()] || b.Prefix().MhType == 0x00 {
+							continue
+						}
+						withheld.add(1)
+						c06Corrupt(d, via, b, func(sig, detail string) {
+							r.Violate(sig, detail, c06Replay{Case: c, Via: via, Missing: b.String(), Kind: -1})
 						})
 					}
 				}
